@@ -191,6 +191,8 @@ def check(ctx) -> None:
 
     c05.rule_p1(ctx, pl, "C04-G10", only_duplicates=True)
     rule_g11(ctx)
+    # G13: the carbon label that gates 'input-balanced' counts every atom of the element (shared with C07-E13)
+    c07.rule_e13(ctx, "C04-G13")
 
 
 def rule_g11(ctx, rule_id: str = "C04-G11") -> None:
